@@ -3,6 +3,7 @@
 package smbgen
 
 import (
+	"bytes"
 	"encoding/json"
 	"fmt"
 	"reflect"
@@ -76,6 +77,19 @@ func ByName(name string) (Entry, bool) {
 func New(e Entry) Cmd {
 	c := create(e.Code, e.Response)
 	c.Init()
+	return c
+}
+
+// NewValid returns the factory-fresh command brought into the generator's domain: strings without a
+// buffer format get format 0x04, dates start at 1980, pads have the length their decoder expects and
+// counts agree with the (empty) buffers. Several factories leave BufferFormat 0, which does not encode.
+func NewValid(e Entry) Cmd {
+	c := New(e)
+	rv := reflect.ValueOf(c).Elem()
+	for _, f := range OwnFields(c) {
+		Normalize(rv.FieldByName(f.Name))
+	}
+	ApplyRelations(c)
 	return c
 }
 
@@ -272,6 +286,8 @@ type Options struct {
 	MaxBytes      int  // upper bound for byte-slice lengths
 	DistinctBytes bool // integers whose bytes are pairwise distinct and non-palindromic
 	MaxElems      int  // upper bound for slices of structures
+	MinElems      int  // lower bound for slices of structures and words (0 = may be empty)
+	MinBytes      int  // lower bound for byte-slice and string lengths (0 = may be empty)
 }
 
 func distinct(t *rapid.T, n int, label string) uint64 {
@@ -288,7 +304,10 @@ func drawUint(t *rapid.T, bits int, o Options, label string) uint64 {
 	if o.DistinctBytes || rapid.IntRange(0, 2).Draw(t, label+"D") == 0 {
 		return distinct(t, bits/8, label)
 	}
-	switch rapid.IntRange(0, 3).Draw(t, label+"C") {
+	switch rapid.IntRange(0, 4).Draw(t, label+"C") {
+	case 4:
+		// zero is what selects the short form of structures with optional parts (WordCount variants)
+		return 0
 	case 0:
 		return rapid.SampledFrom([]uint64{0, 1, 0x7F, 0x80, 0xFF, 0x7FFF, 0x8000, 0xFFFF, 0x7FFFFFFF, 0x80000000, 0xFFFFFFFF, 0x7FFFFFFFFFFFFFFF, 0xFFFFFFFFFFFFFFFF}).Draw(t, label+"E") & (1<<uint(bits) - 1 | uint64(bits/64)*0xFFFFFFFFFFFFFFFF)
 	default:
@@ -299,7 +318,7 @@ func drawUint(t *rapid.T, bits int, o Options, label string) uint64 {
 	}
 }
 
-func drawBytes(t *rapid.T, max int, nulFree bool, label string) []byte {
+func drawBytes(t *rapid.T, max int, nulFree bool, label string, min ...int) []byte {
 	var n int
 	switch rapid.IntRange(0, 4).Draw(t, label+"LC") {
 	case 0:
@@ -310,6 +329,9 @@ func drawBytes(t *rapid.T, max int, nulFree bool, label string) []byte {
 		n = max
 	default:
 		n = rapid.IntRange(0, max).Draw(t, label+"L")
+	}
+	if len(min) > 0 && n < min[0] {
+		n = min[0]
 	}
 	b := rapid.SliceOfN(rapid.Byte(), n, n).Draw(t, label)
 	if nulFree {
@@ -335,7 +357,7 @@ func fillValue(t *rapid.T, v reflect.Value, o Options, label string) {
 			f = 4
 			s.FieldByName("BufferFormat").SetUint(4)
 		}
-		b := drawBytes(t, o.MaxBytes, f == 2 || f == 4, label)
+		b := drawBytes(t, o.MaxBytes, f == 2 || f == 4, label, o.MinBytes)
 		s.FieldByName("Buffer").SetBytes(b)
 		s.FieldByName("Length").SetUint(uint64(len(b)))
 		return
@@ -360,7 +382,11 @@ func fillValue(t *rapid.T, v reflect.Value, o Options, label string) {
 		n := rapid.IntRange(1, 12).Draw(t, label+"NL")
 		name := make([]byte, n)
 		for i := range name {
-			name[i] = byte(rapid.IntRange(0x21, 0x7e).Draw(t, label+"NC"))
+			// spaces are legal inside a name ("MY FILE.TXT"); trailing ones merge with the padding
+			name[i] = byte(rapid.IntRange(0x20, 0x7e).Draw(t, label+"NC"))
+			if rapid.IntRange(0, 5).Draw(t, label+"NS") == 0 {
+				name[i] = ' '
+			}
 		}
 		fn := v.FieldByName("FileName").FieldByName("SMB_STRING")
 		fn.FieldByName("BufferFormat").SetUint(4)
@@ -398,14 +424,17 @@ func fillValue(t *rapid.T, v reflect.Value, o Options, label string) {
 		}
 	case reflect.Slice:
 		if v.Type().Elem().Kind() == reflect.Uint8 {
-			v.SetBytes(drawBytes(t, o.MaxBytes, false, label))
+			v.SetBytes(drawBytes(t, o.MaxBytes, false, label, o.MinBytes))
 			return
 		}
 		max := o.MaxElems
 		if max == 0 {
 			max = 3
 		}
-		n := rapid.IntRange(0, max).Draw(t, label+"N")
+		if max < o.MinElems {
+			max = o.MinElems
+		}
+		n := rapid.IntRange(o.MinElems, max).Draw(t, label+"N")
 		s := reflect.MakeSlice(v.Type(), n, n)
 		for i := 0; i < n; i++ {
 			fillValue(t, s.Index(i), o, fmt.Sprintf("%s%d", label, i))
@@ -421,12 +450,90 @@ func fillValue(t *rapid.T, v reflect.Value, o Options, label string) {
 }
 
 // Fill assigns generated values to every own field and then makes counts agree with buffers.
+//
+// Besides generated values every field takes, one time in ten each, the value the factory gave it and
+// the all-zero value of its type (empty buffers, zero integers, zeroed arrays): these are the values
+// that select the short forms of structures with optional parts, and a random draw all but never hits them.
+// DistinctBytes promises integers with pairwise distinct bytes, so it switches those two classes off.
 func Fill(t *rapid.T, c Cmd, o Options) {
 	rv := reflect.ValueOf(c).Elem()
 	for _, f := range OwnFields(c) {
-		fillValue(t, rv.FieldByName(f.Name), o, f.Name)
+		fv := rv.FieldByName(f.Name)
+		elems := fv.Kind() == reflect.Slice && fv.Type().Elem().Kind() != reflect.Uint8
+		if !o.DistinctBytes && !(elems && o.MinElems > 0) && !(o.MinBytes > 0 && IsByteField(fv.Type())) {
+			switch rapid.IntRange(0, 9).Draw(t, f.Name+"V") {
+			case 0:
+				Normalize(fv) // factory default
+				continue
+			case 1:
+				SetZero(fv)
+				continue
+			}
+		}
+		fillValue(t, fv, o, f.Name)
 	}
 	ApplyRelations(c)
+}
+
+// Normalize brings a factory-default value into the domain the generator works in: a string without
+// a buffer format gets format 0x04 (as fillValue does), a packed date starts at 1980.
+func Normalize(v reflect.Value) {
+	switch v.Type().String() {
+	case "types.SMB_STRING":
+		if f := v.FieldByName("BufferFormat").Uint(); f < 1 || f > 5 {
+			v.FieldByName("BufferFormat").SetUint(4)
+		}
+		v.FieldByName("Length").SetUint(uint64(v.FieldByName("Buffer").Len()))
+		return
+	case "types.SMB_DATE":
+		if v.FieldByName("Year").Uint() < 1980 {
+			v.FieldByName("Year").SetUint(1980)
+		}
+		return
+	}
+	switch v.Kind() {
+	case reflect.Struct:
+		for i := 0; i < v.NumField(); i++ {
+			if v.Type().Field(i).IsExported() {
+				Normalize(v.Field(i))
+			}
+		}
+	case reflect.Array, reflect.Slice:
+		if k := v.Type().Elem().Kind(); k == reflect.Struct || k == reflect.Array {
+			for i := 0; i < v.Len(); i++ {
+				Normalize(v.Index(i))
+			}
+		}
+	}
+}
+
+// SetZero assigns the all-zero value of the field's type inside the generator's domain: integers 0,
+// arrays zeroed, buffers and lists empty, strings empty in their format, dates 1980-00-00.
+func SetZero(v reflect.Value) {
+	switch v.Type().String() {
+	case "types.SMB_STRING":
+		v.FieldByName("Buffer").SetBytes([]byte{})
+		Normalize(v)
+		return
+	case "types.SMB_DATE":
+		v.Set(reflect.Zero(v.Type()))
+		Normalize(v)
+		return
+	}
+	switch v.Kind() {
+	case reflect.Struct:
+		for i := 0; i < v.NumField(); i++ {
+			if v.Type().Field(i).IsExported() {
+				SetZero(v.Field(i))
+			}
+		}
+	case reflect.Array:
+		for i := 0; i < v.Len(); i++ {
+			SetZero(v.Index(i))
+		}
+	default:
+		v.Set(reflect.Zero(v.Type()))
+	}
 }
 
 // Names returns the sorted struct names of the inventory.
@@ -550,6 +657,7 @@ type Slot struct {
 	Got          []byte // the bytes found in the slot
 	Problem      string // "", or why no slot could be determined
 	ProblemKind  string
+	Enc          []byte // the encoding that carries the pattern (nil when it could not be produced)
 }
 
 func safeMarshal(c Cmd) (b []byte, err error) {
@@ -584,7 +692,7 @@ func Mark(e Entry, fields map[string]json.RawMessage, name string, p []byte) Slo
 	SetPattern(f2, inv)
 	enc1, err1 := safeMarshal(c1)
 	enc2, err2 := safeMarshal(c2)
-	s := Slot{TypeWidth: width, LE: le}
+	s := Slot{TypeWidth: width, LE: le, Enc: enc1}
 	if err1 != nil || err2 != nil {
 		s.Problem, s.ProblemKind = fmt.Sprintf("%v / %v", err1, err2), "marshal-error"
 		return s
@@ -629,6 +737,10 @@ func Layout(e Entry, fields map[string]json.RawMessage) (slots []FieldSlot, para
 	if err := Restore(cmd, fields); err != nil {
 		return nil, -1
 	}
+	base, err := safeMarshal(cmd)
+	if err != nil || len(base) < 3 {
+		return nil, -1
+	}
 	chain, between := false, 0
 	for _, f := range OwnFields(cmd) {
 		w := FixedWidth(f.Type)
@@ -641,21 +753,469 @@ func Layout(e Entry, fields map[string]json.RawMessage) (slots []FieldSlot, para
 			continue
 		}
 		sl := Mark(e, fields, f.Name, nil)
-		if sl.ProblemKind != "" || sl.Width != sl.TypeWidth {
+		if sl.ProblemKind != "" || sl.Width != sl.TypeWidth || !sameShape(sl.Enc, base) {
 			chain, between = false, 0
 			continue
 		}
 		slots = append(slots, FieldSlot{f.Name, sl.Start, sl.Width, chain, between})
 		chain, between = true, 0
 	}
-	paramEnd = -1
-	if enc, err := safeMarshal(cmd); err == nil && len(enc) >= 3 {
-		paramEnd = 1 + 2*int(enc[0])
-	}
-	return slots, paramEnd
+	return slots, 1 + 2*int(base[0])
+}
+
+// sameShape: slots found by marking different fields are comparable only if the encodings they were
+// found in are laid out alike. A structure with an optional part (a field that is left out of the
+// parameter block while it is zero) is laid out differently once marking gives that field a value:
+// in an assignment where the part is absent the field has no slot, and it is left out.
+func sameShape(enc, base []byte) bool {
+	return len(enc) == len(base) && len(enc) > 0 && enc[0] == base[0]
 }
 
 // SameBlock reports whether two slot starts lie in the same block (parameters or data).
 func SameBlock(a, b, paramEnd int) bool {
 	return paramEnd > 0 && ((a < paramEnd && b < paramEnd) || (a >= paramEnd+2 && b >= paramEnd+2))
+}
+
+// ---- reading a pattern back, variable-length fields, count fields ---------------------------------------
+
+// PatternOf is the inverse of SetPattern: the bytes an MS-CIFS little-endian encoder emits for the
+// value a fixed-width field holds.
+func PatternOf(v reflect.Value) []byte {
+	le := func(u uint64, w int) []byte {
+		b := make([]byte, w)
+		for i := range b {
+			b[i] = byte(u >> (8 * uint(i)))
+		}
+		return b
+	}
+	switch v.Type().String() {
+	case "data_structures.FILETIME":
+		return append(le(v.FieldByName("DwLowDateTime").Uint(), 4), le(v.FieldByName("DwHighDateTime").Uint(), 4)...)
+	case "data_structures.LARGE_INTEGER":
+		q := v.FieldByName("QuadPart")
+		if q.CanInt() {
+			return le(uint64(q.Int()), 8)
+		}
+		return le(q.Uint(), 8)
+	case "types.SMB_DATE":
+		w := (v.FieldByName("Year").Uint()-1980)<<9 | (v.FieldByName("Month").Uint()&0xF)<<5 | v.FieldByName("Day").Uint()&0x1F
+		return le(w, 2)
+	case "types.SMB_FILE_ATTRIBUTES":
+		return le(v.FieldByName("Attributes").Uint(), 2)
+	case "types.SMB_NMPIPE_STATUS":
+		return []byte{byte(v.FieldByName("ICount").Uint()), byte(v.FieldByName("Flags").Uint())}
+	}
+	switch v.Kind() {
+	case reflect.Array:
+		var out []byte
+		for i := 0; i < v.Len(); i++ {
+			out = append(out, PatternOf(v.Index(i))...)
+		}
+		return out
+	case reflect.Uint8, reflect.Uint16, reflect.Uint32, reflect.Uint64:
+		return le(v.Uint(), v.Type().Bits()/8)
+	case reflect.Int8, reflect.Int16, reflect.Int32, reflect.Int64:
+		return le(uint64(v.Int()), v.Type().Bits()/8)
+	}
+	return nil
+}
+
+// content returns the byte-slice value that holds the content of a variable-length byte field
+// (a byte slice, or the Buffer of an SMB_STRING / OEM_STRING) and the string value it belongs to.
+func content(v reflect.Value) (buf, str reflect.Value, ok bool) {
+	switch v.Type().String() {
+	case "types.OEM_STRING":
+		v = v.FieldByName("SMB_STRING")
+		fallthrough
+	case "types.SMB_STRING":
+		return v.FieldByName("Buffer"), v, true
+	}
+	if v.Kind() == reflect.Slice && v.Type().Elem().Kind() == reflect.Uint8 {
+		return v, reflect.Value{}, true
+	}
+	return reflect.Value{}, reflect.Value{}, false
+}
+
+// IsByteField reports whether t is a variable-length byte field (byte slice or buffer-format string).
+func IsByteField(t reflect.Type) bool {
+	_, _, ok := content(reflect.New(t).Elem())
+	return ok
+}
+
+// Content returns the content bytes of a variable-length byte field.
+func Content(v reflect.Value) []byte {
+	if buf, _, ok := content(v); ok {
+		return buf.Bytes()
+	}
+	return nil
+}
+
+// SetContent replaces the content of a variable-length byte field (and the Length of a string).
+func SetContent(v reflect.Value, b []byte) {
+	buf, str, ok := content(v)
+	if !ok {
+		return
+	}
+	buf.SetBytes(append([]byte{}, b...))
+	if str.IsValid() {
+		Normalize(str)
+	}
+}
+
+// NulFree reports whether the field is a string in a NUL-terminated buffer format.
+func NulFree(v reflect.Value) bool {
+	if _, str, ok := content(v); ok && str.IsValid() {
+		f := str.FieldByName("BufferFormat").Uint()
+		return f == 2 || f == 4 || f < 1 || f > 5
+	}
+	return false
+}
+
+// CountFor returns the count field that describes buffer field name of structure s ("" if none)
+// and whether the generator mirrors the buffer's length into another buffer (pad rules).
+func CountFor(s, name string) (count string, mirrored bool) {
+	for _, r := range Relations[s] {
+		if r.Buffer == name || r.Buffer == name+".Buffer" {
+			count = r.Count
+		}
+	}
+	for _, r := range PadRules[s] {
+		if r.SameAs == name || r.EvenOf == name {
+			mirrored = true
+		}
+	}
+	return
+}
+
+func marker(n int, upper bool) []byte {
+	b := make([]byte, n)
+	for i := range b {
+		b[i] = byte(0x61 + i%26)
+		if upper {
+			b[i] = byte(0x41 + i%26)
+		}
+	}
+	return b
+}
+
+// MarkVar is Mark for a non-empty variable-length byte field: its content is replaced, at unchanged
+// length, by a marker and in a second copy by a marker that differs in every byte; both are NUL-free. The bytes that differ between the two encodings are where the content sits.
+func MarkVar(e Entry, fields map[string]json.RawMessage, name string) Slot {
+	c1, c2 := New(e), New(e)
+	if err := Restore(c1, fields); err != nil {
+		return Slot{Problem: err.Error(), ProblemKind: "bad-case"}
+	}
+	Restore(c2, fields)
+	f1 := reflect.ValueOf(c1).Elem().FieldByName(name)
+	f2 := reflect.ValueOf(c2).Elem().FieldByName(name)
+	n := len(Content(f1))
+	if n == 0 {
+		// giving it content would move every field behind it: its place cannot be compared with theirs
+		return Slot{Problem: "the field is empty", ProblemKind: "empty"}
+	}
+	SetContent(f1, marker(n, true))
+	SetContent(f2, marker(n, false))
+	ApplyRelations(c1)
+	ApplyRelations(c2)
+	n = len(Content(f1)) // a pad rule may have resized it
+	enc1, err1 := safeMarshal(c1)
+	enc2, err2 := safeMarshal(c2)
+	s := Slot{TypeWidth: n, Enc: enc1}
+	if err1 != nil || err2 != nil {
+		s.Problem, s.ProblemKind = fmt.Sprintf("%v / %v", err1, err2), "marshal-error"
+		return s
+	}
+	if len(enc1) != len(enc2) {
+		s.Problem, s.ProblemKind = fmt.Sprintf("%d vs %d bytes", len(enc1), len(enc2)), "content-changes-message-length"
+		return s
+	}
+	var diff []int
+	for i := range enc1 {
+		if enc1[i] != enc2[i] {
+			diff = append(diff, i)
+		}
+	}
+	if len(diff) == 0 {
+		s.Problem, s.ProblemKind = "changing every byte of the content leaves the encoding unchanged", "field-not-emitted"
+		return s
+	}
+	s.Start, s.Width = diff[0], diff[len(diff)-1]-diff[0]+1
+	if len(diff) != s.Width {
+		s.Problem, s.ProblemKind = fmt.Sprintf("%d bytes change in a range of %d", len(diff), s.Width), "slot-not-contiguous"
+	}
+	s.Got = append([]byte{}, enc1[s.Start:s.Start+s.Width]...)
+	return s
+}
+
+// CountLoc is what varying the length of a described buffer reveals about its count field.
+type CountLoc struct {
+	Count, Buffer string
+	N1, N2        int // the two buffer lengths (elements)
+	Start, Width  int // range of parameter-block bytes that differ between the two encodings
+	TypeWidth     int
+	Enc           []byte // encoding with N1 elements
+	Problem       string // "", or why the count could not be located (not a finding: a limit of the method)
+}
+
+// CountSlot locates the count field of relation r: the structure is encoded with the described buffer
+// at two lengths whose little-endian images differ in both low bytes and are not palindromes (0x0102 and
+// 0x0201 bytes or list elements; one and two bytes, k and k+1 elements under an 8-bit count; lists
+// need k >= 1 generated elements, the last of which is repeated). Nothing else is changed, the shorter buffer is a prefix of
+// the longer one and the counts are set by ApplyRelations, so both assignments are consistent. Inside
+// the bytes both parameter blocks have in common (the word count itself left out) only the count
+// field can differ.
+func CountSlot(e Entry, fields map[string]json.RawMessage, r Relation) CountLoc {
+	loc := CountLoc{Count: r.Count, Buffer: r.Buffer}
+	c1, c2 := New(e), New(e)
+	if err := Restore(c1, fields); err != nil {
+		loc.Problem = err.Error()
+		return loc
+	}
+	Restore(c2, fields)
+	rv1, rv2 := reflect.ValueOf(c1).Elem(), reflect.ValueOf(c2).Elem()
+	cnt := fieldByPath(rv1, r.Count)
+	b1, b2 := fieldByPath(rv1, r.Buffer), fieldByPath(rv2, r.Buffer)
+	if !cnt.IsValid() || !b1.IsValid() || b1.Kind() != reflect.Slice {
+		loc.Problem = "relation names a field the structure does not have"
+		return loc
+	}
+	loc.TypeWidth = FixedWidth(cnt.Type())
+	if b1.Type().Elem().Kind() == reflect.Uint8 {
+		loc.N1, loc.N2 = 0x0102, 0x0201
+		if loc.TypeWidth < 2 {
+			loc.N1, loc.N2 = 1, 2
+		}
+		b1.SetBytes(bytes41(loc.N1))
+		b2.SetBytes(bytes41(loc.N2))
+		// the Length of a string whose Buffer is the described buffer
+		for _, rv := range []reflect.Value{rv1, rv2} {
+			if i := lastDot(r.Buffer); i > 0 {
+				Normalize(fieldByPath(rv, r.Buffer[:i]))
+			}
+		}
+	} else {
+		k := b1.Len()
+		if k == 0 {
+			loc.Problem = "no generated element to repeat"
+			return loc
+		}
+		loc.N1, loc.N2 = k, k+1
+		if loc.TypeWidth >= 2 {
+			loc.N1, loc.N2 = 0x0102, 0x0201
+		}
+		grow := func(b reflect.Value, n int) {
+			l := reflect.MakeSlice(b.Type(), n, n)
+			for i := 0; i < n; i++ {
+				l.Index(i).Set(b.Index(min(i, k-1)))
+			}
+			b.Set(l)
+		}
+		grow(b1, loc.N1)
+		grow(b2, loc.N2)
+	}
+	ApplyRelations(c1)
+	ApplyRelations(c2)
+	enc1, err1 := safeMarshal(c1)
+	enc2, err2 := safeMarshal(c2)
+	if err1 != nil || err2 != nil || len(enc1) < 3 || len(enc2) < 3 {
+		loc.Problem = fmt.Sprintf("does not encode: %v / %v", err1, err2)
+		return loc
+	}
+	loc.Enc = enc1
+	end := 1 + 2*int(enc1[0])
+	if e2 := 1 + 2*int(enc2[0]); e2 < end {
+		end = e2
+	}
+	if end > len(enc1) || end > len(enc2) {
+		loc.Problem = "word count exceeds the encoding"
+		return loc
+	}
+	lo, hi := -1, -1
+	for i := 1; i < end; i++ {
+		if enc1[i] != enc2[i] {
+			if lo < 0 {
+				lo = i
+			}
+			hi = i
+		}
+	}
+	if lo < 0 {
+		loc.Problem = "no parameter byte changes with the buffer length"
+		return loc
+	}
+	loc.Start, loc.Width = lo, hi-lo+1
+	return loc
+}
+
+func bytes41(n int) []byte {
+	b := make([]byte, n)
+	for i := range b {
+		b[i] = 0x41
+	}
+	return b
+}
+
+func lastDot(s string) int {
+	for i := len(s) - 1; i >= 0; i-- {
+		if s[i] == '.' {
+			return i
+		}
+	}
+	return -1
+}
+
+// Loc is where one own field was found in an encoding.
+type Loc struct {
+	Name         string
+	Class        string // "fixed" (marked), "count" (located through its buffer), "bytes" (content marked)
+	Start, Width int
+	TypeWidth    int // declared width (fixed, count) or content length (bytes)
+}
+
+// Skip names an own field that has no comparable place in the base encoding, and why:
+// "absent" (optional part that the base assignment leaves out), "not-emitted", "ill-defined" (changed
+// bytes not contiguous or not as many as the type is wide), "empty" (byte field without content),
+// "list-in-parameter-block" / "list-in-data-block" / "list-empty" (lists of words or structures are not
+// marked), "count-not-located", "marshal-error", "other".
+type Skip struct{ Name, Why string }
+
+// Located is the result of Locate.
+type Located struct {
+	Locs     []Loc
+	Skipped  []Skip
+	ParamEnd int    // 1 + 2*WordCount of the base encoding
+	Enc      []byte // the base encoding
+}
+
+func whyOf(kind string) string {
+	switch kind {
+	case "field-not-emitted":
+		return "not-emitted"
+	case "empty", "marshal-error":
+		return kind
+	}
+	return "ill-defined"
+}
+
+// Locate finds every own field that can be located: fixed-width fields and byte fields by marking,
+// count fields through the buffer they describe. ok is false when the assignment does not encode.
+func Locate(e Entry, fields map[string]json.RawMessage) (out Located, ok bool) {
+	cmd := New(e)
+	if err := Restore(cmd, fields); err != nil {
+		return out, false
+	}
+	base, err := safeMarshal(cmd)
+	if err != nil || len(base) < 3 {
+		return out, false
+	}
+	out.Enc, out.ParamEnd = base, 1+2*int(base[0])
+	skip := func(n, why string) { out.Skipped = append(out.Skipped, Skip{n, why}) }
+	for _, f := range OwnFields(cmd) {
+		switch {
+		case FixedWidth(f.Type) > 0 && IsCountField(e.Name, f.Name):
+			found := false
+			for _, r := range Relations[e.Name] {
+				if r.Count != f.Name {
+					continue
+				}
+				// comparable with the other slots if everything in front of the count is as in the base encoding
+				if cl := CountSlot(e, fields, r); cl.Problem == "" && cl.Width <= cl.TypeWidth && cl.Start < len(base) && bytes.Equal(cl.Enc[1:cl.Start], base[1:cl.Start]) {
+					out.Locs = append(out.Locs, Loc{f.Name, "count", cl.Start, cl.Width, cl.TypeWidth})
+					found = true
+				}
+				break
+			}
+			if !found {
+				skip(f.Name, "count-not-located")
+			}
+		case FixedWidth(f.Type) > 0:
+			sl := Mark(e, fields, f.Name, nil)
+			switch {
+			case sl.ProblemKind != "":
+				skip(f.Name, whyOf(sl.ProblemKind))
+			case !sameShape(sl.Enc, base):
+				skip(f.Name, "absent")
+			case sl.Width != sl.TypeWidth:
+				skip(f.Name, "ill-defined")
+			default:
+				out.Locs = append(out.Locs, Loc{f.Name, "fixed", sl.Start, sl.Width, sl.TypeWidth})
+			}
+		case IsByteField(f.Type):
+			sl := MarkVar(e, fields, f.Name)
+			switch {
+			case sl.ProblemKind != "":
+				skip(f.Name, whyOf(sl.ProblemKind))
+			case !sameShape(sl.Enc, base):
+				skip(f.Name, "ill-defined")
+			default:
+				out.Locs = append(out.Locs, Loc{f.Name, "bytes", sl.Start, sl.Width, sl.TypeWidth})
+			}
+		case f.Type.Kind() == reflect.Slice:
+			// one more element: does the parameter block grow?
+			c2 := New(e)
+			Restore(c2, fields)
+			l := reflect.ValueOf(c2).Elem().FieldByName(f.Name)
+			if l.Len() == 0 {
+				skip(f.Name, "list-empty")
+				continue
+			}
+			l.Set(reflect.Append(l, l.Index(l.Len()-1)))
+			ApplyRelations(c2)
+			switch enc2, err := safeMarshal(c2); {
+			case err != nil || len(enc2) < 1:
+				skip(f.Name, "marshal-error")
+			case enc2[0] != base[0]:
+				skip(f.Name, "list-in-parameter-block")
+			default:
+				skip(f.Name, "list-in-data-block")
+			}
+		default:
+			skip(f.Name, "other")
+		}
+	}
+	return out, true
+}
+
+// FillBytes gives the variable-length byte field name a content of n bytes (a drawn unit of one to
+// seven bytes repeated: what matters for long buffers is their length), NUL-free where the field's
+// buffer format is NUL-terminated, and makes the count fields agree again.
+func FillBytes(t *rapid.T, c Cmd, name string, n int) {
+	v := reflect.ValueOf(c).Elem().FieldByName(name)
+	if !v.IsValid() || !IsByteField(v.Type()) {
+		return
+	}
+	unit := rapid.SliceOfN(rapid.Byte(), 1, 7).Draw(t, name+"Unit")
+	b := make([]byte, n)
+	for i := range b {
+		b[i] = unit[i%len(unit)]
+		if b[i] == 0 && NulFree(v) {
+			b[i] = 0x41
+		}
+	}
+	SetContent(v, b)
+	ApplyRelations(c)
+}
+
+// DataByteFields lists the variable-length byte fields of a structure whose content lies in the data
+// block (found by marking a one-byte content in an otherwise factory-fresh structure).
+func DataByteFields(e Entry) (out []string) {
+	cmd := New(e)
+	rv := reflect.ValueOf(cmd).Elem()
+	var names []string
+	for _, f := range OwnFields(cmd) {
+		if IsByteField(f.Type) {
+			Normalize(rv.FieldByName(f.Name))
+			SetContent(rv.FieldByName(f.Name), []byte{0x41})
+			names = append(names, f.Name)
+		}
+	}
+	ApplyRelations(cmd)
+	fields := Snapshot(cmd)
+	for _, n := range names {
+		sl := MarkVar(e, fields, n)
+		if sl.ProblemKind == "" && len(sl.Enc) > 0 && sl.Start >= 1+2*int(sl.Enc[0])+2 {
+			out = append(out, n)
+		}
+	}
+	return out
 }
